@@ -266,6 +266,11 @@ func (ps *PartSet) AddPart(part *Part) (bool, error) {
 		return false, nil
 	}
 
+	// The proof must be a proof for this index of a tree of this size
+	if part.Proof.Index != uint64(part.Index) || part.Proof.Total != uint64(ps.total) {
+		return false, ErrPartSetInvalidProof
+	}
+
 	// Check hash proof
 	if part.Proof.Verify(ps.Hash().Bytes(), part.Bytes) != nil {
 		return false, ErrPartSetInvalidProof
